@@ -17,6 +17,8 @@ import random
 
 ID = "C19"
 LEVEL = "exploration"
+SUITE_UNDER_MONITORS = True  # thorough tier: the unedited repository tests run with this property's contracts loaded
+SUITE_CONTRACTS = ("items_index",)
 CONTRACTS = ("items_index",)
 REACH = {"ItemsList.__getitem__": "ItemsList.__getitem__", "ItemsList.__contains__": "ItemsList.__contains__", "Document.add_sheet": "Document.add_sheet",
          "Sheet.add_table": "Sheet.add_table", "Sheet._add_table": "Sheet._add_table"}
